@@ -104,6 +104,10 @@ class GdbSim:
         self.state.on_execute = self._on_execute
         self.state.on_write = self._on_write
         self.state.on_selected_thread = self._on_selected_thread
+        self.state.on_read = self._on_read
+        self.in_stop = False
+        self.reads_in_hit = 0
+        self.message_hits = 0
         self.thread_calls = 0
         self.current_cmd = None
         self.order = []              # ConnState indexes in order of first message (expected naming order)
@@ -123,6 +127,19 @@ class GdbSim:
                 raise KeyboardInterrupt()
         for line in text.split('\n')[:-1] if text.endswith('\n') else text.split('\n'):
             self.rec.add('out', line)
+
+    def _on_read(self):
+        f = self.cfg.get('ctrl_c_in_memory_read')
+        if f is None or not self.in_stop:
+            return
+        self.reads_in_hit += 1
+        if self.message_hits - 1 == f[0] and self.reads_in_hit - 1 == f[1]:
+            # the user's Ctrl-C lands while the plugin reads the inferior's memory: gdb raises KeyboardInterrupt in Python,
+            # the message of this hit is lost
+            self.fault_fired = True
+            self.rec.add('fault-api', 'memory-read')
+            self.counters['fault_ctrl_c_in_memory_read'] = self.counters.get('fault_ctrl_c_in_memory_read', 0) + 1
+            raise KeyboardInterrupt()
 
     def _on_selected_thread(self):
         f = self.cfg.get('fault_in_selected_thread')
@@ -396,6 +413,10 @@ class GdbSim:
             info['exception'] = 'no breakpoint registered on ' + spec
             self.hits.append(info)
             return False
+        self.reads_in_hit = 0
+        if info.get('kind') == 'message':
+            self.message_hits += 1
+        self.in_stop = True
         try:
             r = bp.stop()
             info['stop'] = bool(r)
@@ -410,6 +431,7 @@ class GdbSim:
                 info['exception'] = traceback.format_exc()
                 info['stop'] = True
             self.rec.add('stop-exception', type(e).__name__)
+        self.in_stop = False
         info['seq_after'] = self.rec.seq
         info['extracted'] = self.extracted[-1] if len(self.extracted) > info.get('n_extracted_before', 0) else None
         self.hits.append(info)
@@ -430,12 +452,29 @@ class GdbSim:
             frame = g.Frame('serialize_closure', {'closure': closure_v}, parent)
             return self.hit('serialize_closure', frame, thread, info)
         target_v = g.Value(g.lookup_type('wl_object').pointer(), raw=self.object_addr(slot, cl.target))
+        # a nested compositor is client and server in one process: a closure may be dispatched re-entrantly from inside a handler
+        # of the other side (its event loop run from a host event callback, or the reverse), so the other side's dispatcher can
+        # be further up the same stack.  The side is the one of the *immediate* caller.
+        outer = None
+        others = [s_ for s_ in self.slots if s_.side != slot.side and getattr(s_, 'addr', None)]
+        if others and (cl.conn * 13 + cl.idx * 5 + cl.opcode) % 7 == 0:
+            o_ = others[(cl.idx + cl.opcode) % len(others)]
+            if o_.side == 'client' and getattr(o_, 'display_addr', None):
+                outer = g.Frame('dispatch_event', {'display': g.Value(g.lookup_type('wl_display').pointer(), raw=o_.display_addr)},
+                                g.Frame('wl_display_dispatch_queue_pending', {}, g.Frame('main', {})))
+            elif o_.side == 'server' and getattr(o_, 'client_addr', None):
+                outer = g.Frame('wl_client_connection_data', {'client': g.Value(g.lookup_type('wl_client').pointer(), raw=o_.client_addr)},
+                                g.Frame('wl_event_loop_dispatch', {}, g.Frame('main', {})))
+            if outer is not None:
+                outer = g.Frame('wl_event_loop_dispatch' if slot.side == 'server' else 'wl_display_dispatch_queue_pending', {},
+                                g.Frame('nested_handler', {}, g.Frame('ffi_call', {}, outer)))
+                self.bump('probe_other_sides_dispatcher_further_up_the_stack')
         if slot.side == 'client':
             parent = g.Frame('dispatch_event', {'display': g.Value(g.lookup_type('wl_display').pointer(), raw=slot.display_addr),
-                                                'closure': closure_v})
+                                                'closure': closure_v}, outer)
         else:
             parent = g.Frame('wl_client_connection_data', {'client': g.Value(g.lookup_type('wl_client').pointer(), raw=slot.client_addr),
-                                                           'closure': closure_v})
+                                                           'closure': closure_v}, outer)
         spec = self.rng_choice(['wl_closure_invoke', 'wl_closure_dispatch'], cl)
         frame = g.Frame(spec, {'closure': closure_v, 'target': target_v, 'opcode': g.Value(g.lookup_type('uint32_t'), raw=cl.opcode)}, parent)
         return self.hit(spec, frame, thread, info)
